@@ -127,7 +127,8 @@ func (s *SchedCheck) RunGenerated(c *spec.Case, env *run.Env) run.CaseResult {
 	res := run.CaseResult{Verdict: run.Held, Hash: hashCase(c)}
 	_ = c.Save(fmt.Sprintf("%s/case-%s-%d.json", env.WorkDir, s.Id, c.Index)) // input on disk before running
 	st := store.New()
-	if err := st.Add(c.Objects.All()...); err != nil {
+	initial, arrivals := c.Objects.SplitArrivals()
+	if err := st.Add(initial...); err != nil {
 		res.Verdict = run.Inconclusive
 		res.Note = "store add: " + err.Error()
 		return res
@@ -202,6 +203,16 @@ func (s *SchedCheck) RunGenerated(c *spec.Case, env *run.Env) run.CaseResult {
 		}
 		w.Step()
 		rec.World = w.Log
+		if late := arrivals[cyc+1]; len(late) > 0 {
+			// workloads submitted between two cycles (spec.ArriveAnno)
+			if err := st.Add(late...); err != nil {
+				res.Verdict = run.Inconclusive
+				res.Note = "arrival: " + err.Error()
+				return res
+			}
+			stats.Add("arrived_objects", len(late))
+			rec.World = append(append([]string{}, rec.World...), fmt.Sprintf("%d objects of arriving workloads submitted", len(late)))
+		}
 		hist = append(hist, rec)
 		if cr.Panic != "" {
 			break
